@@ -60,6 +60,7 @@ func genC08(seed uint64, tier string) *Case {
 		ts = append(ts, k+"="+v)
 	}
 	c.PS["tags"] = strings.Join(sortedStrings(ts), ",")
+	c.P["qbuf"] = int64(g.Pick(1, 2, 3, 8, 512))
 	n := 4 + g.Intn(16)
 	for i := 0; i < n; i++ {
 		var items []string
@@ -86,6 +87,9 @@ func genC08(seed uint64, tier string) *Case {
 		if g.Bool(0.3) {
 			s.K = 1
 		}
+		// between the copies, a late query from the far edge of the node's query window
+		// (window size drawn per case): 1..3 = one below / at / one above (newest - window)
+		s.I = g.Intn(4)
 		c.Steps = append(c.Steps, s)
 	}
 	return c
@@ -112,7 +116,11 @@ func execC08(r *Run) {
 	}
 	c := NewCluster(r, 2)
 	defer c.StopAll()
-	if err := c.Start(0, NodeOpts{Tags: tags}); err != nil {
+	qbuf := int(r.C.P["qbuf"])
+	if qbuf <= 0 {
+		qbuf = 512
+	}
+	if err := c.Start(0, NodeOpts{Tags: tags, QueryBuffer: qbuf}); err != nil {
 		r.Fail("setup", "setup", "%v", err)
 		return
 	}
@@ -188,6 +196,16 @@ func execC08(r *Run) {
 		for copyN := 0; copyN < s.J; copyN++ {
 			if copyN > 0 {
 				r.Fault("duplicate")
+			}
+			if copyN == 1 && s.I > 0 && lt+uint64(s.I) >= uint64(qbuf)+2 {
+				// a different, late query (never re-broadcast, no filters) at the far edge of
+				// the window, between two copies of the query under test
+				st := lt - uint64(qbuf) + uint64(s.I) - 2
+				c.DeliverMsg(&Msg{To: 0, Buf: wEnc(mtQuery, &wQuery{LTime: st, ID: id + 500000, Addr: net.ParseIP(origin.IP).To4(), Port: uint16(origin.Port), SourceNode: origin.Name,
+					Flags: qfNoBroadcast, Timeout: 5 * time.Second, Name: "late", Payload: []byte("s")})})
+				c.Drain(0)
+				c.Bag = nil
+				r.Fault("late-query-at-window-edge")
 			}
 			p0 := len(c.Packets)
 			c.DeliverMsg(&Msg{To: 0, Buf: msg})
